@@ -140,6 +140,14 @@ func runCheck(id, tier string) int {
 	var results []*JobResult
 	for i := range jobs {
 		j := &jobs[i]
+		if j.BudgetSec == 0 {
+			// registered bounds finish well inside these budgets on the unchanged tree; a change to /repo that makes
+			// the solver crawl must not turn a check into an hour-long run: the job is then reported as not decided
+			j.BudgetSec = 300
+			if tier == "thorough" {
+				j.BudgetSec = 5400
+			}
+		}
 		res := explore(ld, j, workers, seed+int64(i), false)
 		res.print(os.Stdout, false)
 		results = append(results, res)
@@ -229,6 +237,10 @@ func runCheck(id, tier string) int {
 	var sampleOut []any
 	for _, res := range results {
 		j := res.Job
+		if res.Capped {
+			fmt.Printf("MACHINERY-FAILURE property=%s job %s: exploration stopped before the bound was covered (budget / undecided paths); the bound is not decided\n", id, j.Name)
+			machinery = true
+		}
 		if len(res.MissingReach) > 0 && len(res.Violations) == 0 {
 			fmt.Printf("MACHINERY-FAILURE property=%s job %s never reached %v (vacuous harness)\n", id, j.Name, res.MissingReach)
 			machinery = true
